@@ -1,4 +1,4 @@
-import PsiProofs.Helper.C11_Concat
+import PsiProofs.Helper.C11_SplitCases
 /-!
 # C11 — annotated arrays keep time base, channel labels and metadata aligned
 
@@ -270,6 +270,87 @@ theorem concat_adjacent_1d (n1 n2 : Nat) (d1 d2 : List Nat) (s0 : Int) (fs : Rat
   rw [concat_two_1d _ _ _ _ _ _ _ _ _ _ _ _ h1 h2, if_neg]
   simp
 
+/-- `a[index]` when the result is an array: `getArr … = ok r ↔ getitem … = ok (arr r)`. -/
+theorem getArr_iff (a : PD) (index : Index) (r : PD) :
+    getArr Fixes.all a index = .ok r ↔ getitem a index = .ok (.arr r) := by
+  unfold getArr getitem
+  cases h : getitemG Fixes.all a index with
+  | error e => simp
+  | ok res => cases res <;> simp
+
+/-- **Split + concat restores the array — every axis, every dimensionality, any number of cuts.**
+For a well-formed 1-, 2- or 3-D annotated array `a`, an axis `dim` it has (time; channel for ≥ 2-D; epoch for 3-D) and any
+list of cut positions `ks ∈ ℤ*` (negative and out-of-range alike) whose clamped values are nondecreasing, the unit-step
+slices `a[:k₁], a[k₁:k₂], …, a[kₘ:]` of that axis (`cutIndex`: `x[..., s]` for time, `x[s]` / `x[:, s]` for channel,
+`x[s]` for epoch) all exist, there are `m + 1` of them, and `concat` of them along `dim` is `a` itself: shape, data
+placement, `s0`, `fs`, channel labels and metadata.  (`ks = []`: `concat([a[:]]) = a`.) -/
+theorem concat_split (a : PD) (hwf : WF a) (dim : Dim) (hk : dim.k ≤ a.ndim) (ks : List Int)
+    (hsorted : (ks.map (clampPos · (axisLen a dim))).Pairwise (· ≤ ·)) :
+    ∃ pieces, (cutSlices ks).mapM (fun s => getArr Fixes.all a (cutIndex a.ndim dim s)) = .ok pieces ∧
+      pieces.length = ks.length + 1 ∧ concat pieces dim = .ok a := by
+  suffices H : ∃ pieces, (cutSlices ks).mapM (fun s => getArr Fixes.all a (cutIndex a.ndim dim s)) = .ok pieces ∧
+      concat pieces dim = .ok a by
+    obtain ⟨pieces, h1, h2⟩ := H
+    exact ⟨pieces, h1, by rw [mapM_ok_length _ _ _ h1]; exact cutSlices_length ks none, h2⟩
+  cases hwf with
+  | d1 n data s0 fs lab m hd =>
+    cases dim with
+    | time => exact split_t1 n data s0 fs lab m hd ks hsorted
+    | channel => simp [Dim.k, PD.ndim] at hk
+    | epoch => simp [Dim.k, PD.ndim] at hk
+  | d2 c n data s0 fs l m hd hl =>
+    cases dim with
+    | time => exact split_t2 c n data s0 fs l m hd hl ks hsorted
+    | channel => exact split_c2 c n data s0 fs l m hd hl ks hsorted
+    | epoch => simp [Dim.k, PD.ndim] at hk
+  | d3 e c n data s0 fs l ms hd hl hm =>
+    cases dim with
+    | time => exact split_t3 e c n data s0 fs l ms hd hl hm ks hsorted
+    | channel => exact split_c3 e c n data s0 fs l ms hd hl hm ks hsorted
+    | epoch => exact split_e3 e c n data s0 fs l ms hd hl hm ks hsorted
+
+/-- **One cut at any `k ∈ ℤ`** (no ordering hypothesis needed): `concat([x[:k], x[k:]]) = x` on every axis of every
+well-formed 1-, 2- or 3-D array. -/
+theorem concat_split_one (a : PD) (hwf : WF a) (dim : Dim) (hk : dim.k ≤ a.ndim) (k : Int) :
+    ∃ p1 p2, getitem a (cutIndex a.ndim dim ⟨none, some k, none⟩) = .ok (.arr p1) ∧
+      getitem a (cutIndex a.ndim dim ⟨some k, none, none⟩) = .ok (.arr p2) ∧
+      concat [p1, p2] dim = .ok a := by
+  obtain ⟨pieces, h1, _, h3⟩ := concat_split a hwf dim hk [k] (by simp)
+  simp only [cutSlices, cutSlicesFrom, List.mapM_cons, List.mapM_nil] at h1
+  cases e1 : getArr Fixes.all a (cutIndex a.ndim dim ⟨none, some k, none⟩) with
+  | error e => rw [e1] at h1; cases h1
+  | ok p1 =>
+    cases e2 : getArr Fixes.all a (cutIndex a.ndim dim ⟨some k, none, none⟩) with
+    | error e => rw [e1, e2] at h1; cases h1
+    | ok p2 =>
+      rw [e1, e2] at h1
+      cases h1
+      exact ⟨p1, p2, (getArr_iff _ _ _).1 e1, (getArr_iff _ _ _).1 e2, h3⟩
+
+/-- **concat refuses non-adjacent or mismatched pieces — every dimensionality, any number of pieces.**
+For well-formed arrays of one dimensionality `≥ dim.k`: if some piece has another rate, or (time axis) some piece does
+not start at the sample after the previous piece's last (`s0ᵢ ≠ s0₀ + Σ_{j<i} n_time j`), or (not concatenating
+channels) some piece has other channel labels, or (not concatenating epochs) other metadata, `concat` raises
+`ValueError`. -/
+theorem concat_rejects (dim : Dim) (base : PD) (rest : List PD) (hwf : ∀ b ∈ base :: rest, WF b)
+    (hnd : ∀ b ∈ rest, b.ndim = base.ndim) (hk : dim.k ≤ base.ndim)
+    (hbad : (∃ b ∈ rest, b.fs ≠ base.fs) ∨
+      (dim = .time ∧ ∃ i, ∃ h : i < rest.length,
+        rest[i].s0 ≠ base.s0 + base.nTime + ((rest.take i).map fun b => (b.nTime : Int)).sum) ∨
+      (dim ≠ .channel ∧ ∃ b ∈ rest, b.channel ≠ base.channel) ∨
+      (dim ≠ .epoch ∧ ∃ b ∈ rest, b.metadata ≠ base.metadata)) :
+    concat (base :: rest) dim = .error .valueError := by
+  apply concat_not_joinable dim base rest base.ndim hwf
+    (by intro b hb; simp only [List.mem_cons] at hb; rcases hb with rfl | hb; rfl; exact hnd b hb) hk
+  rcases hbad with h | ⟨hd, i, hi, h⟩ | h | h
+  · exact .inl h
+  · refine .inr (.inl ⟨hd, ?_⟩)
+    cases hc : checkS0 (base.s0 + base.nTime) rest with
+    | false => rfl
+    | true => exact absurd ((checkS0_iff rest _).1 hc i hi) h
+  · exact .inr (.inr (.inl h))
+  · exact .inr (.inr (.inr h))
+
 /-- **Arithmetic, copies and dtype casts keep annotations**: `__array_finalize__` on a result of the same shape
 copies `s0`, `fs`, channel and metadata unchanged (for every well-formed array). -/
 theorem finalize_keeps (a : PD) (hwf : WF a) (data' : List Nat) :
@@ -333,5 +414,16 @@ example : itemSel (.iarr [1, 2]) 3 = .ok (.fancy [1, 2]) := rfl
 example : itemSel (.int (-1)) 3 = .ok (.idx 2) := rfl
 /-- a rejected pair: the second piece starts one sample late. -/
 example : (5 : Int) ≠ 0 + (4 : Nat) ∨ (1 : Rat) ≠ 1 ∨ (none : Label) ≠ none ∨ (0 : Md) ≠ 0 := .inl (by decide)
+
+/-- cuts `[-1, 5]` on the channel axis (2 channels) of a 3-D array: clamped to `[1, 2]`, nondecreasing. -/
+example : Dim.channel.k ≤ PD.ndim ⟨[2, 2, 1], [0, 1, 2, 3], 5, 1728, .many [none, some "b"], .many [0, 1]⟩ ∧
+    (([-1, 5] : List Int).map (clampPos · (axisLen ⟨[2, 2, 1], [0, 1, 2, 3], 5, 1728, .many [none, some "b"], .many [0, 1]⟩
+      .channel))).Pairwise (· ≤ ·) := by decide
+example : WF ⟨[2, 2, 1], [0, 1, 2, 3], 5, 1728, .many [none, some "b"], .many [0, 1]⟩ :=
+  WF.d3 2 2 1 _ _ _ _ _ rfl rfl rfl
+/-- two 2-D pieces, the second one sample late: `concat_rejects`' hypotheses hold (`i = 0`). -/
+example : (⟨[1, 2], [2, 3], 3, 1, .many [none], .one 0⟩ : PD).s0 ≠
+    (⟨[1, 2], [0, 1], 0, 1, .many [none], .one 0⟩ : PD).s0 + (⟨[1, 2], [0, 1], 0, 1, .many [none], .one 0⟩ : PD).nTime +
+      (([] : List PD).map fun b => (b.nTime : Int)).sum := by decide
 
 end Psi.PData
